@@ -165,6 +165,18 @@ add("C18", "other",
     "a known finding, attributed only to reads G flags as stale.",
     COMMON_NOTE, "Coq theorems on the memory operations + three-way replay (real memory.Type, Go-algorithm model, specification) of generated histories")
 
+add("C10", "other",
+    "Partial. Proved in Coq on a model of Go slices (Slice.v: backing arrays, shared sub-slices, append that writes in place when "
+    "capacity allows; calc's concatenation, slicing, indexing and array building written with the primitives value.go and vm.go "
+    "use): no sequence of operations changes a value that already exists, for every capacity the Go runtime may choose; without "
+    "the copy before append the statement is refuted by a witness. The model is compared on every run with real value.Type values "
+    "(value, slice length and capacity through a verif hook) on ~250 generated operation sequences, where also every pool value is "
+    "re-rendered after every operation. Whole programs (temp-register chains, literals in functions/loops/recursion, closures, "
+    "generators, strings) dump all variables after every statement: unassigned variables must print as before, and the sessions "
+    "are compared with Sem and the VM model, whose values are immutable by construction. Not proved: that vm.go and value.go use "
+    "the primitives as Slice.v says (that is what the correspondence run checks).",
+    COMMON_NOTE, "Coq theorem on a slice/backing-array model for every capacity oracle + differential runs of value.Type and whole programs")
+
 PENDING_REASON = "check under construction in this round (the technique applies; see DESIGN.md section 6); not yet claimed"
 
 
